@@ -7,7 +7,9 @@ import (
 	"encoding/binary"
 	"encoding/hex"
 	"fmt"
+	"net"
 	"strings"
+	"time"
 
 	"github.com/vmware/go-ipfix/pkg/entities"
 	"github.com/vmware/go-ipfix/pkg/registry"
@@ -75,13 +77,67 @@ func dataBody(r *Rng, fs []fieldSpec, nrec int, pad int) []byte {
 	return b
 }
 
+// c03Via presents the packets to a collecting process the way a peer does: one after the other
+// on one TCP connection / from one UDP source address. The delivered messages are kept by the
+// consumer and rendered only after the last one arrived, as an application that batches does:
+// a delivered record must be what ITS message's bytes define, whatever was read afterwards.
+// obs: one outcome per packet as in the in-process form; a packet without a delivery is "err lost".
+func c03Via(proto string, mode string, pkts [][]byte) string {
+	cp, d, stop := startCollector(proto, modeOf(mode))
+	defer stop()
+	conn, err := net.Dial(proto, cp.GetAddress().String())
+	if err != nil {
+		return "dial-error"
+	}
+	defer conn.Close()
+	if proto == "tcp" {
+		waitConns(cp, 1, 10*time.Second)
+	}
+	count := func() int { d.mu.Lock(); defer d.mu.Unlock(); return len(d.msgs) }
+	for i, p := range pkts {
+		if _, err := conn.Write(p); err != nil {
+			break
+		}
+		// wait for this packet's delivery (or give up: it was rejected or lost)
+		deadline := time.Now().Add(400 * time.Millisecond * slowFactor())
+		for count() < i+1 && time.Now().Before(deadline) {
+			time.Sleep(100 * time.Microsecond)
+		}
+		if count() < i+1 {
+			break
+		}
+	}
+	d.mu.Lock()
+	ms := append([]*entities.Message{}, d.msgs...)
+	d.mu.Unlock()
+	out := []string{}
+	for i := range pkts {
+		if i < len(ms) {
+			out = append(out, showDecoded(ms[i], nil))
+		} else {
+			out = append(out, "err lost")
+		}
+	}
+	return strings.Join(out, " / ")
+}
+
+func c03ViaCase(c string) string {
+	t := strings.Fields(c) // <mode> via <proto> <packets>
+	return c03Via(t[2], t[0], parsePackets(t[3:]))
+}
+
 func runC03(env *Env) {
 	registry.LoadRegistry()
 	pool := &DecPool{}
 	defer pool.Close()
 	if len(env.Replay) > 0 {
 		for _, l := range env.Replay {
-			c := strings.Join(caseTokens(l), " ")
+			ct := caseTokens(l)
+			c := strings.Join(ct, " ")
+			if len(ct) > 2 && ct[1] == "via" {
+				env.Emit("C03 "+c, c03ViaCase(c))
+				continue
+			}
 			env.Emit("C03 "+c, pool.Run("C03 "+c))
 		}
 		return
@@ -249,6 +305,39 @@ func runC03(env *Env) {
 			binary.BigEndian.PutUint16(b[16:], []uint16{256, 2, 2, 257, 0}[r.Intn(5)])
 		}
 		emit(mode, "random", setup, hx(b))
+	}
+
+	// --- E. sessions through the transports: a template, then several valid data messages of
+	// different sizes (octetArray / string / unknown fields among them) on one connection; the
+	// deliveries are looked at after the last one was read ---
+	for it := 0; it < 60*scale && !pool.Tripped(); it++ {
+		mode := modes[it%3]
+		proto := []string{"tcp", "udp"}[(it/3)%2]
+		obs := uint32(r.Intn(3))
+		tid := uint16(256 + r.Intn(4))
+		fs := randomTemplate(r, 5)
+		fs = append(fs, fieldSpec{ID: 95, Len: 65535, DT: entities.OctetArray, Known: true})
+		if it%2 == 0 {
+			fs = append(fs, unknownSpec(r, entities.VariableLength), fieldSpec{ID: 82, Len: 65535, DT: entities.String, Known: true})
+		}
+		pkts := [][]byte{templatePkt(obs, tid, fs)}
+		for k, n := 0, 2+r.Intn(4); k < n; k++ {
+			pkts = append(pkts, msgBytes(10, obs, uint32(k), tid, dataBody(r, fs, 1+r.Intn(3), 0)))
+		}
+		// the in-process decoder decides whether every packet is acceptable in this mode (a strict
+		// collector refuses the unknown element): only then is the session put on a transport
+		args := []string{}
+		for _, p := range pkts {
+			args = append(args, hx(p))
+		}
+		ref := pool.Run("C03 " + mode + " " + strings.Join(args, " "))
+		if strings.Contains(ref, "err") || strings.Contains(ref, "panic") || strings.Contains(ref, "hang") {
+			env.Count("session/not-acceptable-in-mode")
+			continue
+		}
+		c := mode + " via " + proto + " " + strings.Join(args, " ")
+		env.Count("session/" + proto)
+		env.Emit("C03 "+c, c03ViaCase(c))
 	}
 
 	// --- D. large bodies: many records, long variable-length fields (pat atoms) ---
